@@ -196,6 +196,77 @@ def histories(draw, max_atoms=6, max_frames=200, max_sites=8, tier='quick'):
     return {'states': np.array(states).T.tolist(), 'inner': np.array(inner).T.tolist()}
 
 
+# ----------------------------------------------------------------------------- very long trajectories through the public pipeline
+LONG_SITES = [[0.1, 0.1, 0.1], [0.6, 0.1, 0.1], [0.1, 0.6, 0.6]]
+
+
+def long_arrays(case):
+    """planned (outer, inner) histories and the coordinates that realise them in a 10 A cubic cell (radius 1.0, inner fraction 0.5)"""
+    T, N = case['frames'], len(case['plans'])
+    states = np.full((T, N), -1)
+    inner = np.full((T, N), -1)
+    coords = np.zeros((T, N, 3))
+    for a, plan in enumerate(case['plans']):
+        t = 0
+        k = 0
+        while t < T:
+            site, where, dwell = plan[k % len(plan)]
+            k += 1
+            e = min(T, t + dwell)
+            if site < 0:
+                coords[t:e, a] = [0.35 + 0.01 * a, 0.85, 0.35]
+            else:
+                off = {'deep': 0.01, 'shell': 0.075}[where]  # 0.1 A / 0.75 A from the centre along x
+                coords[t:e, a] = np.array(LONG_SITES[site]) + [off, 0.0, 0.002 * a]
+                states[t:e, a] = site
+                if where == 'deep':
+                    inner[t:e, a] = site
+            t = e
+    return states, inner, coords
+
+
+def run_long(case, want_jumps=False):
+    from .. import cases
+
+    states, inner, coords = long_arrays(case)
+    T, N = states.shape
+    traj = cases.trajectory(coords, ['Li'] * N, np.eye(3) * 10.0, 1e-15, 300.0)
+    sites = cases.sites_structure(np.eye(3) * 10.0, LONG_SITES, ['A', 'B', 'A'])
+    tr = gcall(traj.transitions_between_sites, sites, 'Li', site_radius=1.0, site_inner_fraction=0.5)
+    if not np.array_equal(np.asarray(tr.states), states) or not np.array_equal(np.asarray(tr.inner_states), inner):
+        bad = np.argwhere(np.asarray(tr.states) != states)
+        raise Violation('long-trajectory-states', f'{T} frames: states differ from the planned history' + (f' first at frame {bad[0][0]}' if len(bad) else ' (inner)'))
+    check_events(states, inner, tr.events, prefix='long-trajectory-')
+    prev, nxt = np.asarray(gcall(tr.states_prev)), np.asarray(gcall(tr.states_next))
+    for got, want, name in ((prev, oracle.ffill_model(states), 'states-prev'), (nxt, oracle.bfill_model(states), 'states-next')):
+        if not np.array_equal(got, want):
+            f, a = np.argwhere(got != want)[0]
+            raise Violation('long-trajectory-' + name, f'{T} frames: frame {f} atom {a}: got {int(got[f, a])}, expected {int(want[f, a])}')
+    return {'nontrivial': True, 'labels': [f'frames>{(T // 10000) * 10000}'], 'tr': tr, 'states': states}
+
+
+def run_long_events(case):
+    info = run_long(case)
+    return {'nontrivial': True, 'labels': info['labels']}
+
+
+@st.composite
+def long_cases(draw, tier):
+    T = draw(st.sampled_from([33000, 40000, 70000] if tier == 'quick' else [33000, 40000, 70000, 140000]))
+    n_atoms = draw(st.integers(1, 2))
+    plans = []
+    for _ in range(n_atoms):
+        plan, last = [], None
+        for _k in range(draw(st.integers(3, 8))):
+            site = draw(st.sampled_from([-1, 0, 1, 2]))
+            if site == last:
+                site = (site + 2) % 3 if site >= 0 else 0
+            last = site
+            plan.append([site, draw(st.sampled_from(['deep', 'shell'])), draw(st.sampled_from([1, 50, 700, 2500, 9000]))])
+        plans.append(plan)
+    return {'frames': T, 'plans': plans}
+
+
 E1 = Enum(1, 3, {'quick': 5, 'thorough': 7})
 E2 = Enum(2, 2, {'quick': 3, 'thorough': 4})
 
@@ -209,4 +280,7 @@ SUBS = [
     Sub(name='random-long', kind='hyp', run=run, strategy=lambda tier: histories(tier=tier),
         rule='1-6 atoms x 2-200 frames x <=8 sites, dwell-time parametrised; atoms that never move / never enter an inner site / only change inner state',
         n={'quick': 400, 'thorough': 8000}, shards={'quick': 4, 'thorough': 16}),
+    Sub(name='long-pipeline', kind='hyp', run=run_long_events, strategy=long_cases,
+        rule='trajectories of 33 000 - 70 000 (140 000) frames through Trajectory.transitions_between_sites: planned (outer, inner) histories with dwell 1-9000 realised as coordinates; states, event table and previous/next views vs the models (index and time widths beyond 2^15 frames)',
+        n={'quick': 2, 'thorough': 12}, shards={'quick': 6, 'thorough': 16}),
 ]
